@@ -1164,6 +1164,23 @@ package leveldb
 //@   at before call (*sessionRecord).delTable#1
 //@     assert [C04,C06:a-deleted-table-comes-back-as-level-and-number] rec == recDelTable && arg0 == level && arg1 == num
 
+// C10 / C01: merging a writer's batch into the leader's. The merged records are the other batch's records, in order,
+// behind the leader's own: same kinds and lengths, positions shifted by the length the leader's data had (so that each
+// index entry still names its own key and value bytes), and the accounted size is the sum.
+//@ func (*Batch).append
+//@   props C10 C01
+//@   safety off
+//@   requires b != p && !sameblock(b.index, p.index) && !sameblock(b.data, p.data) && len(b.data) <= 1099511627776 && len(p.data) <= 1099511627776 && len(b.index) <= 1099511627776 && len(p.index) <= 1099511627776
+//@   loop 1
+//@     invariant [C01,C10:positions-shifted-so-far] old(len(b.index)) <= oi && oi <= len(b.index) && len(b.index) == old(len(b.index)) + len(p.index) && ob == old(len(b.data)) && ob != 0 && unchanged(p.index)
+//@     invariant [C01,C10:key-positions-shifted-so-far] forall k int :: (old(len(b.index)) <= k && k < oi) ==> b.index[k].keyPos == p.index[k - old(len(b.index))].keyPos + ob
+//@     invariant [C01,C10:lengths-and-kinds-kept-so-far] forall k int :: (old(len(b.index)) <= k && k < oi) ==> (b.index[k].keyLen == p.index[k - old(len(b.index))].keyLen && b.index[k].keyType == p.index[k - old(len(b.index))].keyType && b.index[k].valueLen == p.index[k - old(len(b.index))].valueLen)
+//@     invariant [C01,C10:value-positions-shifted-so-far] forall k int :: (old(len(b.index)) <= k && k < oi && p.index[k - old(len(b.index))].valueLen != 0) ==> b.index[k].valuePos == p.index[k - old(len(b.index))].valuePos + ob
+//@     invariant [C01,C10:positions-not-yet-shifted] forall k int :: (oi <= k && k < len(b.index)) ==> (b.index[k].keyPos == p.index[k - old(len(b.index))].keyPos && b.index[k].keyLen == p.index[k - old(len(b.index))].keyLen && b.index[k].keyType == p.index[k - old(len(b.index))].keyType && b.index[k].valueLen == p.index[k - old(len(b.index))].valueLen && b.index[k].valuePos == p.index[k - old(len(b.index))].valuePos)
+//@   ensures [C01,C10:sizes-add-up] len(b.data) == old(len(b.data)) + len(p.data) && len(b.index) == old(len(b.index)) + len(p.index) && b.internalLen == old(b.internalLen) + p.internalLen
+//@   ensures [C01,C10:merged-records-keep-their-kinds-and-lengths-and-name-their-own-bytes] forall k int :: (0 <= k && k < len(p.index)) ==> (b.index[old(len(b.index)) + k].keyPos == p.index[k].keyPos + old(len(b.data)) && b.index[old(len(b.index)) + k].keyLen == p.index[k].keyLen && b.index[old(len(b.index)) + k].keyType == p.index[k].keyType && b.index[old(len(b.index)) + k].valueLen == p.index[k].valueLen)
+//@   ensures [C01,C10:merged-values-name-their-own-bytes] forall k int :: (0 <= k && k < len(p.index) && p.index[k].valueLen != 0) ==> b.index[old(len(b.index)) + k].valuePos == p.index[k].valuePos + old(len(b.data))
+
 // C07 / C03: installing a version. The new version is taken hold of BEFORE the current one is let go (the files both
 // list must not drop to zero references in between), the delta handed to the reference loop lists exactly the tables
 // the record adds and deletes, and afterwards the session's current version is the new one.
